@@ -323,6 +323,9 @@ Proof.
     constructor; simpl; try apply X. exact I'.
   - discriminate.
   - discriminate.
+  - discriminate.
+  - discriminate.
+  - discriminate.
 Qed.
 
 Lemma step_exact s o : Exact s -> gift_free o = true -> Exact (fst (step s o)).
